@@ -23,7 +23,7 @@ func c20Poly(c *Ctx) {
 	rounds := 6
 	if c.Thorough() {
 		n = 700
-		rounds = 12
+		rounds = 60
 	}
 	c20PolyField(c, fK256, n, 1)
 	c20PolyField(c, fEd25519, n, 2)
@@ -32,6 +32,8 @@ func c20Poly(c *Ctx) {
 		c20PolyField(c, fP256, n/2, 4)
 		c20PolyField(c, fPallas, n/2, 5)
 	}
+	c20BirkhoffExhaustive(c, fK256, 21)
+	c20BirkhoffExhaustive(c, fEd25519, 22)
 	c20PolyCurve(c, "k256", cK256, rounds, 11)
 	c20PolyCurve(c, "ed25519", cEd25519, rounds, 12)
 	c20PolyCurve(c, "bls12381g1", cBLSG1, rounds, 13)
@@ -777,4 +779,68 @@ func c20Collect[P curves.Point[P, F, S], F algebra.FiniteFieldElement[F], S alge
 		out = append(out, e)
 	}
 	return out
+}
+
+// c20BirkhoffExhaustive enumerates every derivative-order pattern js in {0..n-1}^n for n <= 3
+// (quick) / n <= 4 (thorough) on small and on large distinct abscissae, with values taken from a
+// fixed random polynomial of degree < n: solvable patterns must return that polynomial, the others
+// must be refused (decided by the model).
+func c20BirkhoffExhaustive[S algebra.PrimeFieldElement[S]](c *Ctx, f algebra.PrimeField[S], stream uint64) {
+	r := NewRng(c.Seed, 2100+stream)
+	p := hexNat(fieldOrder(f))
+	ring, _ := polynomials.NewPolynomialRing(f)
+	maxN := 3
+	if c.Thorough() {
+		maxN = 4
+	}
+	for n := 1; n <= maxN; n++ {
+		for variant := 0; variant < 2; variant++ {
+			if variant == 1 && !c.Thorough() && n == 3 {
+				continue
+			}
+			xs := make([]S, n)
+			for i := range xs {
+				if variant == 0 {
+					xs[i] = f.FromUint64(uint64(i + 1))
+				} else {
+					xs[i] = scalarFromBig(f, r.BigBelow(fieldOrder(f)))
+				}
+			}
+			cs := make([]S, n)
+			for i := range cs {
+				cs[i] = smallOrRandom(r, f, 30)
+			}
+			fpoly, _ := ring.New(cs...)
+			total := 1
+			for range n {
+				total *= n
+			}
+			for code := 0; code < total; code++ {
+				js := make([]uint64, n)
+				k := code
+				for i := range js {
+					js[i] = uint64(k % n)
+					k /= n
+				}
+				ys := make([]S, n)
+				for i := range ys {
+					ys[i] = c20IterDeriv(fpoly, js[i]).Eval(xs[i])
+				}
+				var bc []S
+				res := safely(func() string {
+					pl, err := birkhoff.Interpolate(xs, js, ys)
+					if err != nil {
+						return c20ErrClass(err)
+					}
+					bc = pl.Coefficients()
+					return scalarsHex(bc)
+				})
+				c.Count("birkhoff.exhaustive." + map[bool]string{true: "ok", false: "err"}[bc != nil])
+				c.Emit(fmt.Sprintf("birkhoffInterp %s %s %s %s", p, scalarsHex(xs), decList(js), scalarsHex(ys)), res)
+				if bc != nil && !c20SameCoeffs(bc, c20Pad(f, cs, n)) {
+					c.Violation(fmt.Sprintf("birkhoff.Interpolate(derivatives of f) != f: p=%s xs=%s js=%s f=%s got %s", p, scalarsHex(xs), decList(js), scalarsHex(cs), res))
+				}
+			}
+		}
+	}
 }
